@@ -564,6 +564,7 @@ theorem dotted_refused_iff (a b c d : Nat) (ha : a < 256) (hb : b < 256) (hc : c
   have := refused_iff_membership_parsed (dotted a b c d) _ m bg bp hp
   simpa [effective, memberCls] using this
 
+set_option maxRecDepth 4000 in
 /-- the hexadecimal IPv4-mapped form `::ffff:xxxx:yyyy` (what `str(IPv6Address)` prints for a mapped
     address), with or without a zone, is decided like the dotted quad — no parse hypotheses -/
 theorem hex_mapped_form_equal_plain (a b c d : Nat) (ha : a < 256) (hb : b < 256) (hc : c < 256)
